@@ -339,7 +339,7 @@ struct RBuild {
     built: Built,
 }
 fn empty_built() -> Built {
-    Built { builder: None, infos: BTreeMap::new(), order: BTreeMap::new(), model_layouts: BTreeMap::new(), model_debug: BTreeMap::new(), real_debug: BTreeMap::new(), diffs: vec![], qdiffs: vec![], iters: BTreeMap::new() }
+    Built { builder: None, infos: BTreeMap::new(), order: BTreeMap::new(), model_layouts: BTreeMap::new(), model_debug: BTreeMap::new(), real_debug: BTreeMap::new(), real_debug_specs: BTreeMap::new(), diffs: vec![], qdiffs: vec![], iters: BTreeMap::new() }
 }
 impl RBuild {
     fn info(&mut self, tag: usize, name: &str, t: u8, is_batch: bool, is_tl: bool, parent: Option<usize>) {
